@@ -2,6 +2,7 @@ package catalog
 
 import (
 	"encoding/json"
+	"sync"
 
 	"github.com/jsightapi/jsight-schema-core/bytes"
 	"github.com/jsightapi/jsight-schema-core/notations/regex"
@@ -11,9 +12,15 @@ import (
 
 type ExchangeRegexSchema struct {
 	*regex.RSchema
+
+	// The example generator of RSchema advances with every call, so the example is generated once
+	// and serialising the same catalog again gives the same bytes.
+	exampleOnce sync.Once
+	example     []byte
+	exampleErr  error
 }
 
-func (e ExchangeRegexSchema) MarshalJSON() ([]byte, error) {
+func (e *ExchangeRegexSchema) MarshalJSON() ([]byte, error) {
 	data := struct {
 		Content  interface{}             `json:"content,omitempty"`
 		Example  string                  `json:"example,omitempty"`
@@ -29,17 +36,19 @@ func (e ExchangeRegexSchema) MarshalJSON() ([]byte, error) {
 		return []byte{}, err
 	}
 
-	example, err := e.Example()
-	if err != nil {
-		return []byte{}, err
+	e.exampleOnce.Do(func() {
+		e.example, e.exampleErr = e.Example()
+	})
+	if e.exampleErr != nil {
+		return []byte{}, e.exampleErr
 	}
 
-	data.Example = string(example)
+	data.Example = string(e.example)
 
 	return json.Marshal(data)
 }
 
-func (e ExchangeRegexSchema) Notation() notation.SchemaNotation {
+func (e *ExchangeRegexSchema) Notation() notation.SchemaNotation {
 	return notation.SchemaNotationRegex
 }
 
